@@ -230,6 +230,12 @@ func mkExec(script []op, timeline bool, cf cfg) *mc.Exec {
 					running, startedOnce = true, true
 					starts = append(starts, startRec{mc.Step(), mc.ModelNow()})
 					c.Start()
+				case 'U':
+					// the other entry point: Run() in a goroutine of the caller's
+					running, startedOnce = true, true
+					starts = append(starts, startRec{mc.Step(), mc.ModelNow()})
+					mc.GoNamed("runcall", func() { c.Run() })
+					mc.Yield()
 				case 'P':
 					ctx := c.Stop()
 					lastStop = ctx
@@ -495,7 +501,7 @@ func scenarios() []hx.Scenario {
 			if x.kind == 'P' {
 				stopped = true
 			}
-			if x.kind == 'S' && stopped {
+			if (x.kind == 'S' || x.kind == 'U') && stopped {
 				class = "cron/start-after-stop"
 			}
 		}
@@ -586,6 +592,34 @@ func scenarios() []hx.Scenario {
 		}
 	}
 	// restart: Start, Stop, the clock passes activations while stopped, Start again
+	// started through Run() in the caller's goroutine, stopped, started again
+	U := op{kind: 'U'}
+	for _, ent := range [][]op{{A1}, {A1, A2}} {
+		for _, second := range []op{S, U} {
+			for _, z := range [][]op{{}, {Z5}} {
+				sc := append(append([]op(nil), ent...), U, Z15, P)
+				sc = append(sc, z...)
+				sc = append(sc, second, Z5, P, Z25)
+				add("restart-run ", append(sc, E, G), tl, false)
+				// (timeline mode only: the clock moves at quiescence, so the sleep after
+				// U is a happens-before edge between Run() having started and the
+				// next call, which the package asks its callers to provide)
+			}
+		}
+	}
+	for _, sc := range [][]op{{A1, U, Z25, E, P, Z10}, {U, A1, A2, Z25, R0, Z10, P}} {
+		add("run ", append(append([]op(nil), sc...), G), tl, false)
+	}
+	// a job that is still running across Stop / Start / Stop: every Stop's context
+	// waits for it, whichever run started it
+	for _, ent := range [][]op{{A3b}, {A3b, A1}} {
+		for _, z2 := range [][]op{{}, {Z5}, {Z15}} {
+			sc := append(append([]op(nil), ent...), S, Z15, P)
+			sc = append(sc, z2...)
+			sc = append(sc, S, Z5, P, Z5)
+			add("restart-blocked ", append(sc, G), tl, false)
+		}
+	}
 	for _, ent := range [][]op{{A1}, {A2}, {X2}, {A1, A2}} {
 		for _, z1 := range [][]op{{}, {Z5}, {Z10}} {
 			for _, z2 := range [][]op{{Z5}, {Z10}, {Z25}} {
